@@ -231,6 +231,27 @@ example : ∃ t, parseTpl [47, 123, 108, 97, 110, 103, 125, 47, 120] false = .ok
     writeTpl t [] [([108, 97, 110, 103], [101, 110])] [([108, 97, 110, 103], [104, 101])] = .ok [47, 104, 101, 47, 120] := by
   exact ⟨⟨[[47], [47, 120]], [0], [[108, 97, 110, 103]]⟩, by decide, by decide⟩
 
+/-- the mapper's syntax constants as extracted from the source: keys may not contain `/ ; ,`, may not be
+`.` or `..`; placeholders are `{…}`; an index is a string of ASCII digits -/
+theorem mapper_constants_pinned :
+    Gen.keyForbiddenChars = [47, 59, 44] ∧ Gen.keyForbiddenWords = [[46, 46], [46]] ∧
+    Gen.tplOpen = 123 ∧ Gen.tplClose = 125 ∧ (∀ c, Gen.tplNotDigit c = (decide (c < 48) || decide (57 < c))) :=
+  ⟨by decide, by decide, by decide, by decide, fun _ => rfl⟩
+
+/-- every key that `url_mapper::assign(key,url)` accepts (NUL-free: `map` takes a C string) is read by
+`url_mapper::map` as exactly that key of the addressed mapper — no `/` navigation, no `..`, no keywords;
+it denotes the child application's default entry iff it was mounted as an application. -/
+theorem valid_key_addressable (p : MPos) (key : Bytes) (hv : keyValid key = true) (hnul : (0 : UInt8) ∉ key) :
+    mapperForKey p (cstr key) =
+      match isApp p.cur key with
+      | some c => .ok (⟨c, (p.cur, key) :: p.up⟩, [], [])
+      | none => .ok (p, key, []) := by
+  have hc : cstr key = key := takeWhile_ne_of_not_mem 0 key hnul
+  rw [hc]
+  exact mapperForKey_valid p key hv (by decide) (by decide) (by decide) (by decide)
+
+example : keyValid Ex.kProfile = true ∧ (0 : UInt8) ∉ Ex.kProfile := by decide
+
 /-! ## URL generation and routing agree -/
 
 /-- **mapper/dispatcher consistency, any depth.**  Let `key` (any key form: relative, `a/b`, `..`,
